@@ -484,9 +484,25 @@ def rule7_recentre(ctx, views):
     ctx.floor('C02.7', 11)
 
 
+QUSERS = ['myth_queue_push', 'myth_queue_pop', 'myth_queue_take', 'myth_queue_put', 'myth_queue_trypass', 'myth_queue_peek']
+
+
+def rule9_init(ctx, fl):
+    ctx.doc('C02.9', 'initialiser completeness of the run queue: every field of myth_thread_queue that push / pop / take / put / '
+            'trypass / peek read is written by myth_queue_init (analysed in a scratch unit that emits all of them together)')
+    names = ['myth_queue_init'] + QUSERS
+    file, kw = ctx.emit_unit(names, flavour=fl)
+    v = ctx.view(file, roots=names, stops=('myth_malloc', 'myth_free', 'myth_flmalloc', 'myth_flfree', 'fprintf', 'abort', 'myth_mmap') +
+                 lib.SPIN_STOPS, **kw)
+    n = lib.init_covers(ctx, 'C02.9', v, 'myth_queue_init', QUSERS, 'run queue')
+    ctx.ob('C02.9', 'fields read by the queue operations enumerated', n >= 5, 'base, top, size, ptr, wc', loc=WSQ, detail=str(n))
+    ctx.floor('C02.9', 7)
+
+
 def run(ctx):
     for fl in flavours(ctx):
         ctx.unit = fl
+        rule9_init(ctx, fl)
         stops = lib.SPIN_STOPS
         vn = ctx.view(NATIVE, roots=['myth_queue_push', 'myth_queue_pop', 'myth_queue_put', 'myth_queue_trypass',
                                      'myth_wsapi_runqueue_take', 'myth_wsapi_runqueue_peek'], stops=stops, flavour=fl)
@@ -509,6 +525,10 @@ WSQ = 'src/myth_wsqueue_func.h'
 NAT = 'src/myth_if_native.c'
 SCHED = 'src/myth_sched_func.h'
 MUTANTS = [
+    {'name': 'queue_init leaves top unset', 'expect': 'C02.9',
+     'edits': [(WSQ, "  q->base = q->size/2;\n  q->top = q->base;\n  memset(&q->wc,0,sizeof(myth_wscache));", "  q->base = q->size/2;\n  memset(&q->wc,0,sizeof(myth_wscache));")]},
+    {'name': 'queue_init does not clear the peek cache', 'expect': 'C02.9',
+     'edits': [(WSQ, "  q->top = q->base;\n  memset(&q->wc,0,sizeof(myth_wscache));", "  q->top = q->base;")]},
     {'name': 'pop: fence between top store and base load removed', 'expect': 'C02.1',
      'edits': [(WSQ, "  q->top = top;\n  //Decrement and check top\n  myth_wsqueue_rwbarrier();\n  base = q->base;", "  q->top = top;\n  //Decrement and check top\n  base = q->base;")]},
     {'name': 'take: fence removed', 'expect': 'C02.1',
